@@ -102,6 +102,13 @@ type Case struct {
 	Shared   []*Shared
 	// Problems collects immutability failures of shared objects ("<when>: <what>").
 	Problems []string
+	// TemplateLog is the observation of the template itself, taken by Finish
+	// after all threads are done (the template never runs a thread program).
+	TemplateLog []string
+	// queued is the number of functions the harness queued on the template's
+	// Interrupt channel before any copy was taken.
+	queued   int
+	finished bool
 
 	yield    func()
 	hooked   bool
@@ -137,7 +144,20 @@ func (c *Case) equip(tid int, vm *otto.Otto) {
 		return otto.UndefinedValue()
 	})
 	_ = vm.Set("TID", tid+1) // per-thread constant: lets equal programs pass different arguments
+	// per-runtime settings, changed AFTER a Copy: they must not reach the
+	// template or the sibling (Finish observes all of them at rest)
 	vm.SetRandomSource(lcg(uint32(7919 * (tid + 1))))
+	vm.SetStackDepthLimit(30 + 5*tid)
+	vm.SetStackTraceLimit(2 + tid)
+	vm.SetDebuggerHandler(func(o *otto.Otto) {
+		*logp = append(*logp, fmt.Sprintf("debugger: handler of T%d called with own runtime: %v", tid, o == vm))
+	})
+	if c.Template == nil {
+		// fresh runtimes poll their own (empty) channel; copies keep whatever
+		// Copy() gave them - installing one here would hide a channel
+		// inherited from the template
+		vm.Interrupt = make(chan func(), 1)
+	}
 	if c.hooked {
 		y := c.yield
 		otto.VerifSetStepHook(vm, func(int) { y() })
@@ -209,11 +229,27 @@ func NewCase(sp Spec, opt Options) *Case {
 	c := &Case{Spec: sp, Logs: make([][]string, n), VMs: make([]*otto.Otto, n), yield: opt.Yield, hooked: opt.Yield != nil, baseline: opt.Baseline}
 	c.Threads = make([]func(), n)
 
-	newTemplate := func(syncPoints bool) *otto.Otto {
+	newTemplate := func(syncPoints bool, queued int) *otto.Otto {
 		t := otto.New()
 		if res := ox.Run(t, Prelude); res.Err != nil || res.Panicked {
 			panic(fmt.Sprintf("c20: prelude failed: %v %v", res.Err, res.PanicVal))
 		}
+		// per-runtime state of the template, all installed BEFORE any Copy():
+		// Interrupt channel (buffered) with a queued function meant for the
+		// template only, stack depth limit, trace limit, random source,
+		// debugger handler
+		t.Interrupt = make(chan func(), 2)
+		for k := 0; k < queued; k++ {
+			t.Interrupt <- func() { panic("c20: interrupt queued for the TEMPLATE was delivered") }
+		}
+		c.queued = queued
+		t.SetStackDepthLimit(60)
+		t.SetStackTraceLimit(7)
+		t.SetRandomSource(lcg(424243))
+		tl := &c.TemplateLog
+		t.SetDebuggerHandler(func(o *otto.Otto) {
+			*tl = append(*tl, fmt.Sprintf("debugger: handler of the template called with the template: %v", o == t))
+		})
 		if c.hooked && syncPoints {
 			y := c.yield
 			otto.VerifSetSyncHook(t, func(int) { y() })
@@ -267,7 +303,7 @@ func NewCase(sp Spec, opt Options) *Case {
 			}
 		}
 	case ScCopyBefore:
-		c.Template = newTemplate(false) // copied here, before the threads exist
+		c.Template = newTemplate(false, 1) // copied here, before the threads exist
 		for i := range c.Threads {
 			i := i
 			vm := c.Template.Copy()
@@ -280,7 +316,7 @@ func NewCase(sp Spec, opt Options) *Case {
 			}
 		}
 	case ScCopyDuring:
-		c.Template = newTemplate(true)
+		c.Template = newTemplate(true, 1)
 		for i := range c.Threads {
 			i := i
 			c.Threads[i] = func() {
@@ -294,7 +330,7 @@ func NewCase(sp Spec, opt Options) *Case {
 			}
 		}
 	case ScCopyOnly:
-		c.Template = newTemplate(true)
+		c.Template = newTemplate(true, 0) // channel installed, nothing queued
 		for i := range c.Threads {
 			i := i
 			c.Threads[i] = func() {
@@ -334,7 +370,73 @@ func NewCase(sp Spec, opt Options) *Case {
 	return c
 }
 
-// RenderLogs renders the observation logs of all threads.
+// PostSrc is run by Finish on every runtime at rest (no scheduling points): it
+// observes the per-runtime settings (stack depth limit, trace limit, random
+// source, debugger handler).
+const postExpr = `[(function d(n) { try { return d(n + 1); } catch (e) { return n; } })(0),
+ (function f(n) { return n ? f(n - 1) : new Error("x").stack.split("\n").length; })(9), Math.floor(Math.random() * 100000)].join("/")`
+
+const PostSrc = "debugger; " + postExpr
+
+// TemplatePostSrc additionally observes the template's user state, which no
+// copy may have changed.
+const TemplatePostSrc = `debugger; [T.arr.join(), T.counter, T.seen, T.re.lastIndex, T.d.getTime(), T.err.message, T.obj.n.deep[0], "gone" in T.obj, T.args[0], T.cat("t"), T.next()].join("|") + "#" + ` + postExpr
+
+func runLine(vm *otto.Otto, what string, src interface{}) string {
+	res := ox.Run(vm, src)
+	switch {
+	case res.Panicked:
+		return fmt.Sprintf("%s PANIC %v", what, res.PanicVal)
+	case res.Err != nil:
+		return fmt.Sprintf("%s !! %s", what, res.Err.Error())
+	}
+	return fmt.Sprintf("%s => %s", what, ox.Canon(res.Value))
+}
+
+// Finish is called once, after all thread functions have returned and nothing
+// is running: it observes every runtime at rest and the template.
+//   - every thread runtime runs PostSrc (its own limits / random source / handler);
+//   - the functions queued on the template's Interrupt channel before the copies
+//     were taken must still be queued: an interrupt is delivered only to the
+//     runtime whose channel it was put on, and the template never ran;
+//   - the template runs TemplatePostSrc: its user state and settings are those
+//     of a template no copy was ever taken from.
+func (c *Case) Finish() {
+	if c.finished {
+		return
+	}
+	c.finished = true
+	for i, vm := range c.VMs {
+		if vm == nil {
+			continue
+		}
+		otto.VerifSetStepHook(vm, nil)
+		otto.VerifSetSyncHook(vm, nil)
+		c.Logs[i] = append(c.Logs[i], runLine(vm, "post", PostSrc))
+	}
+	if t := c.Template; t != nil {
+		otto.VerifSetSyncHook(t, nil)
+		if n := len(t.Interrupt); n != c.queued {
+			c.Problems = append(c.Problems, fmt.Sprintf("the template's Interrupt channel holds %d queued function(s) after the copies ran, %d were queued for the template (the template itself never ran: another runtime received them)", n, c.queued))
+		}
+		for len(t.Interrupt) > 0 {
+			<-t.Interrupt
+		}
+		c.TemplateLog = append(c.TemplateLog, runLine(t, "template", TemplatePostSrc))
+	}
+}
+
+// AllLogs returns the thread logs followed, for template scenarios, by the
+// template's own log.
+func (c *Case) AllLogs() [][]string {
+	out := append([][]string{}, c.Logs...)
+	if c.Template != nil {
+		out = append(out, c.TemplateLog)
+	}
+	return out
+}
+
+// RenderLogs renders observation logs (threads, then the template if any).
 func RenderLogs(logs [][]string) string {
 	var sb strings.Builder
 	for i, l := range logs {
@@ -346,17 +448,42 @@ func RenderLogs(logs [][]string) string {
 	return sb.String()
 }
 
+// SoloThread runs thread i of a fresh baseline instance alone and returns its log.
+func SoloThread(sp Spec, i int) []string {
+	c := NewCase(sp, Options{Baseline: true})
+	c.Threads[i]()
+	c.Finish()
+	return c.Logs[i]
+}
+
+// SoloTemplate returns the log of the template of a fresh instance none of
+// whose threads ran (nil for scenarios without a template).
+func SoloTemplate(sp Spec) []string {
+	c := NewCase(sp, Options{Baseline: true})
+	if c.Template == nil {
+		return nil
+	}
+	// copy-before takes its copies at construction; the others never copy here
+	for i := range c.VMs {
+		c.VMs[i] = nil
+	}
+	c.Finish()
+	return c.TemplateLog
+}
+
 // Solo computes the reference logs of a spec: every thread of the case is run
 // ALONE (nothing else running, private freshly compiled scripts) on a fresh
-// instance of the scenario. It is computed twice; a difference means a body is
-// not deterministic (a harness error).
+// instance of the scenario; for template scenarios the last element is the
+// log of a template nothing was run on. It is computed twice; a difference
+// means a body is not deterministic (a harness error).
 func Solo(sp Spec) ([][]string, error) {
 	once := func() [][]string {
 		out := make([][]string, len(sp.Bodies))
 		for i := range sp.Bodies {
-			c := NewCase(sp, Options{Baseline: true})
-			c.Threads[i]()
-			out[i] = c.Logs[i]
+			out[i] = SoloThread(sp, i)
+		}
+		if t := SoloTemplate(sp); t != nil {
+			out = append(out, t)
 		}
 		return out
 	}
